@@ -108,6 +108,15 @@ fn check_bv_routes(ctx: &mut Ctx, bits: &BitsDesc) {
     let case = || serde_json::to_value(&c).unwrap();
     let got = guard(|| canonical(&Any::Bv(BitVector::from_iter(m.to_bools())), &m));
     ctx.expect(|| "convert[FromIterator<bool> -> BitVector]".to_string(), got, &None, case);
+    // Uniform vectors through the filling constructor of the raw vector, and on to the other two types.
+    if m.len > 0 && (m.ones() == 0 || m.zeros() == 0) {
+        let fill = m.zeros() == 0;
+        let got = guard(|| {
+            let bv = BitVector::from(simple_sds::raw_vector::RawVector::with_len(m.len as usize, fill));
+            canonical(&Any::Bv(bv.clone()), &m).or_else(|| canonical(&Any::Sp(SparseVector::from(bv.clone())), &m)).or_else(|| canonical(&Any::Rl(RLVector::from(bv)), &m))
+        });
+        ctx.expect(|| format!("convert[RawVector::with_len(len, {}) -> BitVector -> Sparse / RL]", fill), got, &None, case);
+    }
 }
 
 fn check_chain(ctx: &mut Ctx, bits: &BitsDesc, chain: &[T], by_from: bool) {
